@@ -3,14 +3,14 @@
 
 use crate::common::*;
 use bytes::{Buf, Bytes};
-use futures_core::Stream;
+
 use http_body::Body as _;
 use http_serve::Entity;
 use serde_json::{json, Value};
 use std::os::unix::fs::MetadataExt;
 use std::pin::Pin;
 use std::task::Poll;
-use std::time::{Duration, SystemTime};
+
 
 type BoxError = Box<dyn std::error::Error + Send + Sync>;
 type Crf = http_serve::ChunkedReadFile<Bytes, BoxError>;
@@ -50,13 +50,6 @@ fn ver_of(m: &std::fs::Metadata) -> Value {
     json!(format!("{}:{}:{}:{}", m.ino(), m.len(), m.mtime(), m.mtime_nsec()))
 }
 
-fn secs_ns(t: SystemTime) -> (i64, u32) {
-    match t.duration_since(SystemTime::UNIX_EPOCH) {
-        Ok(d) => (d.as_secs() as i64, d.subsec_nanos()),
-        Err(_) => (-1, 0),
-    }
-}
-
 pub fn run(cases_path: &str, out_path: &str) {
     silence_panics();
     let cases = read_cases(cases_path);
@@ -82,11 +75,19 @@ pub fn run(cases_path: &str, out_path: &str) {
     println!("{{\"cases\": {}, \"events\": {}}}", cases.len(), n);
 }
 
-fn make_file(p: &std::path::Path, size: u64, mt: (u64, u32)) -> std::fs::File {
+fn make_file(p: &std::path::Path, size: u64, mt: (i64, u32)) -> std::fs::File {
     std::fs::write(p, content(size)).expect("write file");
     let f = std::fs::OpenOptions::new().read(true).write(true).open(p).expect("open rw");
-    f.set_modified(SystemTime::UNIX_EPOCH + Duration::new(mt.0, mt.1)).expect("set mtime");
+    f.set_modified(systime(mt.0, mt.1)).expect("set mtime");
     f
+}
+
+/// ETag of a file entity; a panic inside `etag()` is data.
+fn crf_etag(c: &Crf) -> Value {
+    match catch(|| c.etag()) {
+        Ok(e) => etag_facts(&e),
+        Err(m) => json!({"k": "panic", "msg": m}),
+    }
 }
 
 async fn run_case(dir: &std::path::Path, case: &Value) -> Vec<Value> {
@@ -281,10 +282,10 @@ async fn run_case(dir: &std::path::Path, case: &Value) -> Vec<Value> {
             let a = case["a"].as_u64().unwrap_or(0);
             let b = case["b"].as_u64().unwrap_or(size);
             let npolls = case["polls"].as_u64().unwrap_or(4);
-            let mt = (case["mt_s"].as_u64().unwrap_or(1_000_000_000), case["mt_ns"].as_u64().unwrap_or(0) as u32);
+            let mt = (case["mt_s"].as_i64().unwrap_or(1_000_000_000), case["mt_ns"].as_u64().unwrap_or(0) as u32);
             let made = std::fs::File::create(&p).and_then(|f| {
                 f.set_len(size)?;
-                f.set_modified(SystemTime::UNIX_EPOCH + Duration::new(mt.0, mt.1))?;
+                f.set_modified(systime(mt.0, mt.1))?;
                 f.sync_all()?;
                 f.metadata()
             });
@@ -303,7 +304,7 @@ async fn run_case(dir: &std::path::Path, case: &Value) -> Vec<Value> {
             };
             let (ls, lns) = crf.last_modified().map(secs_ns).unwrap_or((-1, 0));
             ev.push(json!({"ev": "fopen", "ok": true, "size": 0, "sizeL": limbs(size), "len": limbs(crf.len()), "lm_s": ls, "lm_ns": lns,
-                           "mt_s": meta.mtime(), "mt_ns": meta.mtime_nsec(), "etag": etag_facts(&crf.etag()), "a": 0, "b": 0,
+                           "mt_s": meta.mtime(), "mt_ns": meta.mtime_nsec(), "etag": crf_etag(&crf), "a": 0, "b": 0,
                            "aL": limbs(a), "bL": limbs(b), "sparse": true, "via": false}));
             let waker = std::task::Waker::from(std::sync::Arc::new(crate::serve_eng::FlagWaker(std::sync::atomic::AtomicBool::new(false))));
             let mut s = crf.get_range(a..b);
@@ -338,7 +339,7 @@ async fn run_case(dir: &std::path::Path, case: &Value) -> Vec<Value> {
             // two-request history over a real file (C14): validators copied verbatim from the first
             // response into the second request
             let size = case["size"].as_u64().unwrap_or(10);
-            let mt = (case["mt_s"].as_u64().unwrap_or(1_000_000_000), case["mt_ns"].as_u64().unwrap_or(0) as u32);
+            let mt = (case["mt_s"].as_i64().unwrap_or(1_000_000_000), case["mt_ns"].as_u64().unwrap_or(0) as u32);
             drop(make_file(&p, size, mt));
             let open = || Crf::new(std::fs::File::open(&p).unwrap(), http::HeaderMap::new()).unwrap();
             let req1 = http::Request::builder().method("GET").uri("/").body(()).unwrap();
@@ -373,7 +374,7 @@ async fn run_case(dir: &std::path::Path, case: &Value) -> Vec<Value> {
             // a sequence of file-system operations on one path; after each, open and record
             // (version, etag)
             let size = case["size"].as_u64().unwrap_or(10);
-            let mt = (case["mt_s"].as_u64().unwrap_or(1_000_000_000), case["mt_ns"].as_u64().unwrap_or(0) as u32);
+            let mt = (case["mt_s"].as_i64().unwrap_or(1_000_000_000), case["mt_ns"].as_u64().unwrap_or(0) as u32);
             drop(make_file(&p, size, mt));
             let mut steps = vec![json!(["open"])];
             steps.extend(case["steps"].as_array().cloned().unwrap_or_default());
@@ -385,11 +386,11 @@ async fn run_case(dir: &std::path::Path, case: &Value) -> Vec<Value> {
                         let mut f = std::fs::OpenOptions::new().append(true).open(&p).unwrap();
                         f.write_all(&content(s[1].as_u64().unwrap_or(1))).unwrap();
                         // keep mtime deterministic but different only if asked
-                        f.set_modified(SystemTime::UNIX_EPOCH + Duration::new(mt.0, mt.1)).unwrap();
+                        f.set_modified(systime(mt.0, mt.1)).unwrap();
                     }
                     "touch" => {
                         let f = std::fs::OpenOptions::new().write(true).open(&p).unwrap();
-                        f.set_modified(SystemTime::UNIX_EPOCH + Duration::new(s[1].as_u64().unwrap(), s[2].as_u64().unwrap() as u32)).unwrap();
+                        f.set_modified(systime(s[1].as_i64().unwrap(), s[2].as_u64().unwrap() as u32)).unwrap();
                     }
                     "rewrite" => {
                         // same length, same mtime, same inode: content change only (version unchanged)
@@ -418,7 +419,7 @@ async fn run_case(dir: &std::path::Path, case: &Value) -> Vec<Value> {
                 match r {
                     Ok(Ok(crf)) => {
                         let (ls, lns) = crf.last_modified().map(secs_ns).unwrap_or((-1, 0));
-                        ev.push(json!({"ev": "fver", "op": s[0], "ver": ver_of(&meta), "etag": etag_facts(&crf.etag()),
+                        ev.push(json!({"ev": "fver", "op": s[0], "ver": ver_of(&meta), "etag": crf_etag(&crf),
                                        "len": limbs(crf.len()), "flen": limbs(meta.len()), "lm_s": ls, "lm_ns": lns,
                                        "mt_s": meta.mtime(), "mt_ns": meta.mtime_nsec()}));
                     }
@@ -430,7 +431,7 @@ async fn run_case(dir: &std::path::Path, case: &Value) -> Vec<Value> {
             let size = case["size"].as_u64().unwrap_or(10);
             let a = case["a"].as_u64().unwrap_or(0);
             let b = case["b"].as_u64().unwrap_or(size);
-            let mt = (case["mt_s"].as_u64().unwrap_or(1_000_000_000), case["mt_ns"].as_u64().unwrap_or(0) as u32);
+            let mt = (case["mt_s"].as_i64().unwrap_or(1_000_000_000), case["mt_ns"].as_u64().unwrap_or(0) as u32);
             let truncs: Vec<(u64, u64)> = case["trunc"]
                 .as_array()
                 .map(|t| t.iter().map(|x| (x[0].as_u64().unwrap_or(0), x[1].as_u64().unwrap_or(0))).collect())
@@ -453,7 +454,7 @@ async fn run_case(dir: &std::path::Path, case: &Value) -> Vec<Value> {
             };
             let (ls, lns) = crf.last_modified().map(secs_ns).unwrap_or((-1, 0));
             ev.push(json!({"ev": "fopen", "ok": true, "size": size, "len": limbs(crf.len()), "lm_s": ls, "lm_ns": lns,
-                           "mt_s": meta.mtime(), "mt_ns": meta.mtime_nsec(), "etag": etag_facts(&crf.etag()), "a": a, "b": b,
+                           "mt_s": meta.mtime(), "mt_ns": meta.mtime_nsec(), "etag": crf_etag(&crf), "a": a, "b": b,
                            "sizeL": limbs(size), "aL": limbs(a), "bL": limbs(b), "sparse": false, "via": kind == "serve"}));
             let waker = std::task::Waker::from(std::sync::Arc::new(crate::serve_eng::FlagWaker(std::sync::atomic::AtomicBool::new(false))));
             let max_polls = 64 + 2 * ((b.saturating_sub(a)) / 65536 + 1);
